@@ -1,7 +1,7 @@
 (* C05 — property theorems (parametric in the registry, in base64 and in str.isspace).
    Nothing but statements closed by `exact`, each followed by Print Assumptions. *)
 From Coq Require Import ZArith List Bool.
-From S2T Require Import Lib.PyStr C05.Model C05.Proofs C05.Roundtrip C05.Tables C05.Base64.
+From S2T Require Import Lib.PyStr C05.Model C05.Proofs C05.Roundtrip C05.Tables C05.Base64 C05.Markers.
 Import ListNotations.
 Open Scope N_scope.
 
@@ -239,3 +239,55 @@ Theorem C05_from_json_value_error :
     (is_object j = false \/ exists kvs, j = JObj kvs /\ has_key K_TYPE kvs = false).
 Proof. exact from_json_value_error. Qed.
 Print Assumptions C05_from_json_value_error.
+
+(* WHICH marker-named content keys are confused (open finding marker-key-in-content-dict), exactly:
+   (1) a dict with a key that str()s to `_bytes` / `_bytesio` is NEVER restored — for every hint, registry, codec and
+       whatever its other entries are, from_json raises or hands back a bytes / BytesIO object; *)
+Theorem C05_binary_marker_key_always_confused :
+  forall (enc : bytes -> str) (dec : str -> option bytes) (isspace : N -> bool) (R : registry) kvs T,
+    dict_has_key K_BYTESIO kvs || dict_has_key K_BYTES kvs = true ->
+    deser dec isspace R false (serialize enc true (VDict kvs)) T <> Some (canon (VDict kvs)).
+Proof.
+  intros enc dec isspace R kvs T H E.
+  pose proof (binary_marker_key_confused enc dec isspace R kvs T H) as C.
+  rewrite E, canon_dict in C. discriminate C.
+Qed.
+Print Assumptions C05_binary_marker_key_always_confused.
+
+(* (2) and conversely: a dict of well-behaved values without a `_type` key is restored at an untyped position IF AND
+       ONLY IF none of its keys is a binary marker; *)
+Theorem C05_binary_marker_key_iff :
+  forall (enc : bytes -> str) (dec : str -> option bytes) (isspace : N -> bool) (R : registry),
+    (forall b, dec (enc b) = Some b) -> registry_wf R = true ->
+    forall kvs,
+      forallb (fun kv => plain (snd kv) && keys_not_markers (snd kv)) kvs = true ->
+      dict_has_key K_TYPE kvs = false ->
+      (deser dec isspace R false (serialize enc true (VDict kvs)) TAny = Some (canon (VDict kvs))
+       <-> dict_has_key K_BYTESIO kvs || dict_has_key K_BYTES kvs = false).
+Proof. exact binary_marker_iff. Qed.
+Print Assumptions C05_binary_marker_key_iff.
+
+(* (3) a `_type` member naming a REGISTERED class turns the object into an instance of that class (or the constructor
+       raises) — it is never handed back as a dict; *)
+Theorem C05_type_marker_builds_dataclass :
+  forall (dec : str -> option bytes) (isspace : N -> bool) (R : registry) (top : bool) O T c r k,
+    has_key K_BYTESIO O = false -> has_key K_BYTES O = false ->
+    assoc K_TYPE O = Some (JStr (c :: r)) -> find_cls R (c :: r) = Some k ->
+    match deser dec isspace R top (JObj O) T with
+    | Some w => is_data w = true
+    | None => True
+    end.
+Proof. exact type_marker_builds_dataclass. Qed.
+Print Assumptions C05_type_marker_builds_dataclass.
+
+(* (4) but keys_not_markers is NOT necessary: a `_type` key whose value is neither a registered class name nor a
+       non-empty list/dict is harmless — {"_type": 5} is restored as itself, for every registry and codec.  The exact
+       gap between C05_roundtrip_partial and an "if and only if" is this case. *)
+Theorem C05_keys_not_markers_not_necessary :
+  exists v T, forall (enc : bytes -> str) (dec : str -> option bytes) (isspace : N -> bool) (R : registry),
+    keys_not_markers v = false /\ has_type isspace R v T = true
+    /\ deser dec isspace R false (serialize enc true v) T = Some (canon v).
+Proof.
+  exists (VDict [(KStr K_TYPE, VInt 5)]), TAny. intros enc dec isspace R. repeat split; reflexivity.
+Qed.
+Print Assumptions C05_keys_not_markers_not_necessary.
